@@ -61,7 +61,13 @@ def tree_digest(root):
 
 def prepare_scratch(modules, need_ref=False):
     os.makedirs(SCRATCH_BASE, exist_ok=True)
-    scratch = tempfile.mkdtemp(prefix="pfverif.", dir=SCRATCH_BASE)
+    fixed = os.environ.get("VERIF_SCRATCH_NAME")  # developer aid: reproducible scratch path
+    if fixed:
+        scratch = os.path.join(SCRATCH_BASE, "pfverif." + fixed)
+        shutil.rmtree(scratch, ignore_errors=True)
+        os.makedirs(scratch)
+    else:
+        scratch = tempfile.mkdtemp(prefix="pfverif.", dir=SCRATCH_BASE)
     dst = os.path.join(scratch, "repo")
     # developer aid: seeded-change trials hold this lock while a patch is applied to /repo
     import fcntl
@@ -292,7 +298,7 @@ def run_harness(h, base_t, dst, scratch, envadd, playback=False):
             sel.setdefault("memcmp.0", max(unwind, specs.MEMCMP_UNWIND))
             if "unstable-options" not in cmd:
                 cmd += ["-Z", "unstable-options"]
-            cmd += ["--cbmc-args", "--unwind", str(unwind),
+            cmd += ["--cbmc-args"] + list(h.get("cbmc_extra", [])) + ["--unwind", str(unwind),
                     "--unwindset", ",".join("%s:%d" % kv for kv in sorted(sel.items()))]
         else:
             cmd += ["--default-unwind", str(unwind)]
@@ -493,6 +499,10 @@ def select(prop, tier, only=None):
         if prop == "ALL" and h["name"] == "k00_smoke":
             continue
         if h.get("tier", "quick") == "thorough" and tier != "thorough":
+            continue
+        # experimental = kept for the record and for `--only`, never part of a registered command:
+        # harnesses that do not finish (or are unstable) on this machine
+        if h.get("tier") == "experimental" and not (only and re.search(only, h["name"])):
             continue
         if h.get("tier") == "quick_only" and tier != "quick":
             continue
